@@ -24,7 +24,10 @@ pub fn build(draws: &[u16], tier: Tier) -> Case {
         2 => "crash",
         _ => "fail",
     };
-    let (family, mut prog) = match s.pick(6) {
+    let (family, mut prog) = match s.pick(7) {
+        // thread-locals and lazy statics (values that own a loom Arc): their creation and destruction
+        // order is part of an execution
+        6 => ("tls-lazy", gen::tls_lazy_prog(&mut s, 3, 7, true)),
         // await loops: the length of the decision path differs between iterations
         5 => ("await", crate::props::c18::await_prog(&mut s, false)),
         0 | 1 => ("litmus", gen::litmus(&mut s, &gen::LitmusParams { sc_only: false, fences: true, rmw: true, free_mix: true, max_threads: 2, max_events: 5, joins: false, late_spawn: true })),
